@@ -35,6 +35,10 @@ package provider
 // termination: every round consumes a key or sees the end of the stream
 //@   loop 0 decreases 2 * chanPending(kch) + ite(allCidsProcessed, 0, 1)
 //@   loop 1 invariant[keys_only_consumed] chanPending(kch) <= atloop(0, chanPending(kch)) && !allCidsProcessed
+// every key of a batch is judged by the validator itself - no key is set aside on the strength of what
+// happened to another key
+//@   loop 2 continue[every_key_is_put_to_the_validator] called("call:ValidateCid#0")
+//@   site[validator_sees_this_key] call:ValidateCid : arg0 == s.allowlist && arg1 == c
 //@   site[announce_only_allowed] builtin:append : validKey(s.allowlist, c) && len(arg1) == 1 && arg1[0] == cidHash(c)
 //@   site[non_empty_batches] call:doProvideMany : len(arg2) > 0
 
